@@ -172,3 +172,24 @@ func init() {
 		Edit{a, "\tfor _, elems := range eru.updated {\n\t\tfor i := range elems {\n\t\t\tse := elems[i].StateElement.Move()\n\t\t\telems[i].StateElement = &se\n\t\t}\n\t}\n\tslices.Reverse(ms.sces)", "\tslices.Reverse(ms.sces)\n\tfor _, elems := range eru.updated {\n\t\tfor i := range elems {\n\t\t\tse := elems[i].StateElement.Move()\n\t\t\telems[i].StateElement = &se\n\t\t}\n\t}"})
 	mut("C06", "(benign) reversal through a small local helper loop order changed", false, "", Edit{a, "\tslices.Reverse(ms.sces)\n\tslices.Reverse(ms.sfes)\n", "\tslices.Reverse(ms.sfes)\n\tslices.Reverse(ms.sces)\n"})
 }
+
+func init() {
+	// ---- C04 ----
+	m := "consensus/merkle.go"
+	mut("C04", "siacoin leaf drops the maturity height", true, "leaf-coverage|leaf/siacoin",
+		Edit{m, "elemHash := hashAll(\"leaf/siacoin\", e.ID, types.V2SiacoinOutput(e.SiacoinOutput), e.MaturityHeight)", "elemHash := hashAll(\"leaf/siacoin\", e.ID, types.V2SiacoinOutput(e.SiacoinOutput))"},
+		Edit{"types/multiproof.go", "hashAll(\"leaf/siacoin\", e.ID, V2SiacoinOutput(e.SiacoinOutput), e.MaturityHeight)", "hashAll(\"leaf/siacoin\", e.ID, V2SiacoinOutput(e.SiacoinOutput))"})
+	mut("C04", "siafund leaf drops the claim start", true, "leaf-coverage|leaf/siafund",
+		Edit{m, "elemHash := hashAll(\"leaf/siafund\", e.ID, types.V2SiafundOutput(e.SiafundOutput), types.V2Currency(e.ClaimStart))", "elemHash := hashAll(\"leaf/siafund\", e.ID, types.V2SiafundOutput(e.SiafundOutput))"})
+	mut("C04", "leaf hash does not write the spent byte", true, "leaf-hash|spent-flag", Edit{m, "\tif l.spent {\n\t\tbuf[41] = 1\n\t}\n", "\t_ = l.spent\n"})
+	mut("C04", "containsLeaf drops the tree-exists conjunct", true, "membership-predicate",
+		Edit{m, "return acc.hasTreeAtHeight(len(l.MerkleProof)) && acc.Trees[len(l.MerkleProof)] == l.proofRoot()", "return len(l.MerkleProof) < len(acc.Trees) && acc.Trees[len(l.MerkleProof)] == l.proofRoot()"})
+	mut("C04", "containsUnspentSiafundElement hashes as spent", true, "wrapper:containsUnspentSiafundElement",
+		Edit{m, "func (acc *ElementAccumulator) containsUnspentSiafundElement(sfe types.SiafundElement) bool {\n\treturn acc.containsLeaf(siafundLeaf(&sfe, false))", "func (acc *ElementAccumulator) containsUnspentSiafundElement(sfe types.SiafundElement) bool {\n\treturn acc.containsLeaf(siafundLeaf(&sfe, true))"})
+	mut("C04", "ValidateTransactionElements skips the storage-proof chain index", true, "parent-coverage",
+		Edit{m, "\t\tif r, ok := txn.FileContractResolutions[i].Resolution.(*types.V2StorageProof); ok {\n\t\t\tcheck(\"storage proof\", chainIndexLeaf(&r.ProofIndex))\n\t\t}\n", ""})
+	mut("C04", "applied-leaf walker omits attestations", true, "leaf-collection|leaf/attestation",
+		Edit{"consensus/application.go", "\tfor i := range aes {\n\t\tfn(attestationLeaf(&aes[i]))\n\t}\n", ""})
+	mut("C04", "multiproof copy of the siacoin leaf diverges", true, "leaf-sibling|leaf/siacoin",
+		Edit{"types/multiproof.go", "hashAll(\"leaf/siacoin\", e.ID, V2SiacoinOutput(e.SiacoinOutput), e.MaturityHeight)", "hashAll(\"leaf/siacoin\", e.ID, e.MaturityHeight, V2SiacoinOutput(e.SiacoinOutput))"})
+}
